@@ -73,13 +73,18 @@ fn format_level_harnesses(ctx: &mut vmc::Ctx) {
     ctx.assume("the CSI / tabix async readers and writers build their BGZF layer with the default worker count (available_parallelism); it cannot be chosen through their API");
 
     let env_u32 = |k: &str| std::env::var(k).ok().and_then(|s| s.parse::<u32>().ok());
-    let docs = vnd::corpus(ctx.thorough());
+    // development switch (never set by ./check): run only the format-level harnesses whose name contains it
+    let only = std::env::var("C16_ONLY").ok();
+    let on = |name: &str| only.as_deref().map(|o| o.split(',').any(|o| name == o)).unwrap_or(true);
+    // development switch: the thorough corpus and document sets in a quick-tier run
+    let thorough = ctx.thorough() || std::env::var_os("C16_THOROUGH_SETS").is_some();
+    let docs = vnd::corpus(thorough);
     // plus, for the BGZF based formats, the same payloads with block boundaries inside the record prefixes
     // (and, thorough, every 61 payload bytes): the format readers then see short reads from the BGZF layer
     let mut extra: Vec<vnd::Doc> = Vec::new();
     for d in docs.iter().filter(|d| !d.big && d.set != "empty") {
         extra.extend(format_level::reblocked(d, None));
-        if ctx.thorough() {
+        if thorough {
             extra.extend(format_level::reblocked(d, Some(61)));
         }
     }
@@ -89,7 +94,7 @@ fn format_level_harnesses(ctx: &mut vmc::Ctx) {
     for f in Format::ALL {
         // documents with at least two records (header, records, EOF in the first sequential trace)
         let mut of: Vec<&RCase> = all.iter().filter(|c| c.format == f && c.scripts.iter().zip(&c.expect).any(|(s, t)| matches!(s, Script::Seq(_)) && t.lines.len() > 3) && !c.name.contains("reblocked")).collect();
-        of.sort_by_key(|c| (std::cmp::Reverse(c.scripts.len()), c.bytes.len()));
+        of.sort_by_key(|c| (c.name.contains("empty"), std::cmp::Reverse(c.scripts.len()), c.bytes.len()));
         // FASTA: the CRLF document is the interesting one
         if f == Format::Fasta {
             of.sort_by_key(|c| (!c.name.contains("crlf"), c.bytes.len()));
@@ -105,11 +110,22 @@ fn format_level_harnesses(ctx: &mut vmc::Ctx) {
 
     // readers
     let bu = env_u32("C16_BU").unwrap_or(ctx.by_tier(0, 1));
-    ctx.harness(Config::new("fmt_reader_uniform", bu), |ch| format_level::reader_body(ch, &all, &workers, &uniform));
+    if on("fmt_reader_uniform") {
+        ctx.harness(Config::new("fmt_reader_uniform", bu), |ch| format_level::reader_body(ch, &all.iter().collect::<Vec<_>>(), &workers, &uniform));
+    }
     let b = env_u32("C16_B").unwrap_or(ctx.by_tier(1, 2));
-    ctx.harness(Config::new("fmt_reader", b), |ch| format_level::reader_body(ch, &all, &workers, &choose));
+    if on("fmt_reader") {
+        // the documents re-blocked every 61 bytes have 20+ inflate tasks per execution: bound 1 in both tiers
+        let (light, heavy): (Vec<&RCase>, Vec<&RCase>) = all.iter().partition(|c| !c.name.contains("reblocked-every"));
+        ctx.harness(Config::new("fmt_reader", b), |ch| format_level::reader_body(ch, &light, &workers, &choose));
+        if !heavy.is_empty() {
+            ctx.harness(Config::new("fmt_reader_reblocked61", 1), |ch| format_level::reader_body(ch, &heavy, &workers, &choose));
+        }
+    }
     let bd = env_u32("C16_BD").unwrap_or(ctx.by_tier(2, 3));
-    ctx.harness(Config::new("fmt_reader_deep", bd), |ch| format_level::reader_body(ch, &small, &workers, &choose));
+    if on("fmt_reader_deep") {
+        ctx.harness(Config::new("fmt_reader_deep", bd), |ch| format_level::reader_body(ch, &small.iter().collect::<Vec<_>>(), &workers, &choose));
+    }
 
     // every single window boundary: all scripts for readers without a BGZF layer; for the BGZF based
     // ones (the BGZF level harnesses own the block framing) one sequential, the query and the mixed scripts
@@ -118,11 +134,11 @@ fn format_level_harnesses(ctx: &mut vmc::Ctx) {
         .filter_map(|c| {
             if c.workers_apply || matches!(c.format, Format::Csi | Format::Tbi) {
                 let deep = small.iter().any(|s| s.name == c.name);
-                if !deep && ctx.quick() {
+                if !deep && !thorough {
                     return None;
                 }
                 c.restricted(&|s| matches!(s, Script::Seq(0) | Script::Mixed(_)) || matches!(s, Script::Query(l, _) if *l == "three-regions" || *l == "same-region-twice"))
-            } else if c.format == Format::Cram && ctx.quick() {
+            } else if c.format == Format::Cram && !thorough {
                 // CRAM executions are the expensive ones: one document, three scripts in the quick tier
                 if !small.iter().any(|s| s.name == c.name) {
                     return None;
@@ -133,15 +149,19 @@ fn format_level_harnesses(ctx: &mut vmc::Ctx) {
             }
         })
         .collect();
-    ctx.harness(Config::new("fmt_reader_cut1", 0), |ch| format_level::reader_cut_body(ch, &cut1, 1, &|_| 1));
+    if on("fmt_reader_cut1") {
+        ctx.harness(Config::new("fmt_reader_cut1", 0), |ch| format_level::reader_cut_body(ch, &cut1, 1, &|_| 1));
+    }
     // every pair of window boundaries on a grid of at most `g` offsets, readers without a BGZF layer
     let g = ctx.by_tier(48usize, 128);
-    let cut2: Vec<RCase> = (if ctx.quick() { &small } else { &all })
+    let cut2: Vec<RCase> = (if !thorough { &small } else { &all })
         .iter()
         .filter(|c| !(c.workers_apply || matches!(c.format, Format::Csi | Format::Tbi)))
-        .filter_map(|c| c.restricted(&|s| ctx.thorough() || matches!(s, Script::Seq(0) | Script::Seq(1))))
+        .filter_map(|c| c.restricted(&|s| thorough || matches!(s, Script::Seq(0) | Script::Seq(1))))
         .collect();
-    ctx.harness(Config::new("fmt_reader_cut2", 0), |ch| format_level::reader_cut_body(ch, &cut2, 2, &|c| c.bytes.len().div_ceil(g)));
+    if on("fmt_reader_cut2") {
+        ctx.harness(Config::new("fmt_reader_cut2", 0), |ch| format_level::reader_cut_body(ch, &cut2, 2, &|c| c.bytes.len().div_ceil(g)));
+    }
 
     // writers
     let wcases: Vec<format_writers::WCase> = docs.iter().filter(|d| !d.big).filter_map(format_writers::make_wcase).collect();
@@ -155,7 +175,13 @@ fn format_level_harnesses(ctx: &mut vmc::Ctx) {
     }
     eprintln!("[C16] format level: {} writer cases ({} in the deep set: {})", wcases.len(), wsmall.len(), wsmall.iter().map(|c| c.name.as_str()).collect::<Vec<_>>().join(" "));
     let wall: Vec<&format_writers::WCase> = wcases.iter().collect();
-    ctx.harness(Config::new("fmt_writer_uniform", bu), |ch| format_writers::writer_body(ch, &wall, &workers, &uniform));
-    ctx.harness(Config::new("fmt_writer", b), |ch| format_writers::writer_body(ch, &wall, &workers, &choose));
-    ctx.harness(Config::new("fmt_writer_deep", bd), |ch| format_writers::writer_body(ch, &wsmall, &workers, &choose));
+    if on("fmt_writer_uniform") {
+        ctx.harness(Config::new("fmt_writer_uniform", bu), |ch| format_writers::writer_body(ch, &wall, &workers, &uniform));
+    }
+    if on("fmt_writer") {
+        ctx.harness(Config::new("fmt_writer", b), |ch| format_writers::writer_body(ch, &wall, &workers, &choose));
+    }
+    if on("fmt_writer_deep") {
+        ctx.harness(Config::new("fmt_writer_deep", bd), |ch| format_writers::writer_body(ch, &wsmall, &workers, &choose));
+    }
 }
